@@ -830,6 +830,35 @@ def run(ctx):
             ctx.violation("asf:load:nested-header-escapes", "a Header Object inside the %s: %s instead of a MutagenError" % (
                 where, "loads" if k0 == "ok" else classify(r0) if k0 == "exc" else k0), desc0)
         reqs.append(("asf op=walk data=%s" % hx(d0), "err mutagen" if k0 == "exc" and isinstance(r0, MutagenError) else "ok" if k0 == "ok" else classify(r0), desc0))
+    # a Header Extension Object inside a Header Extension Object (one level; 1200 levels: RecursionError before the repair):
+    # a MutagenError at load (model: `.mutagen`)
+    def nested_ext(depth):
+        b = b""
+        for _ in range(depth):
+            b = obj(G["ext"], EXT_RESERVED + struct.pack("<I", len(b)) + b)
+        return header_bytes([b]) + obj(G["data"], b"\0" * 26)
+    for depth in (2, 1200):
+        d0 = nested_ext(depth)
+        k0, r0 = timed(lambda: ASF(io.BytesIO(d0)), 20)
+        desc0 = dict(kind="ext-in-ext", op="walk", depth=depth, data=hx(d0) if len(d0) < 1500 else "len=%d" % len(d0))
+        if k0 != "exc" or not isinstance(r0, MutagenError):
+            ctx.violation("asf:load:nested-extension-escapes", "Header Extension Objects nested %d deep: %s instead of a MutagenError" % (
+                depth, "loads" if k0 == "ok" else classify(r0) if k0 == "exc" else k0), desc0)
+        reqs.append(("asf op=walk data=%s" % hx(d0), "err mutagen" if k0 == "exc" and isinstance(r0, MutagenError) else "ok" if k0 == "ok" else classify(r0), desc0))
+    # a file that loads with a name of 65534 bytes without terminator: saving it unchanged must be a MutagenError
+    # (struct.error before the repair); model: `.mutagen`
+    nm = ("a" * 32767).encode("utf-16-le")
+    d0 = header_bytes([obj(G["ecd"], struct.pack("<HH", 1, len(nm)) + nm + struct.pack("<HH", 3, 4) + b"\1\0\0\0")])
+    f0 = io.BytesIO(d0)
+    a0 = ASF(f0)
+    f0.seek(0)
+    k0, r0 = timed(lambda: a0.save(f0), 20)
+    desc0 = dict(kind="long-name", op="save", data="len=%d" % len(d0))
+    if k0 != "exc" or not isinstance(r0, MutagenError):
+        ctx.violation("asf:save:escape", "unchanged save of a file with a 65534-byte unterminated name: %s instead of a MutagenError" % (
+            "succeeds" if k0 == "ok" else classify(r0) if k0 == "exc" else k0), desc0)
+    reqs.append(("asf op=save data=%s tags=%s pad=default" % (hx(d0), enc_tags(list(a0.tags))),
+                 "err mutagen" if k0 == "exc" and isinstance(r0, MutagenError) else "ok" if k0 == "ok" else classify(r0), desc0))
     for i in range(n):
         if i < len(forced):
             data, kind, op = forced[i]
@@ -856,9 +885,13 @@ def run(ctx):
                 ctx.violation("asf:load:raises", "%s on a well-formed file" % impl, desc)
             if kind == "header-in-header" and impl != "err mutagen":
                 ctx.violation("asf:load:nested-header-escapes", "a Header Object inside the header: %s instead of a MutagenError" % impl, desc)
+            if impl != "err mutagen":
+                ctx.violation("asf:load:escape", "ASF(file) raised %s, not a MutagenError" % impl, desc)
             continue
         if kind == "header-in-header":
             ctx.violation("asf:load:nested-header-accepted", "a file with a Header Object inside the header loads", desc)
+        if kind == "ext-in-ext" and lay is None:
+            ctx.violation("asf:load:nested-extension-accepted", "a file with a Header Extension Object inside a Header Extension Object loads", desc)
         if rng.random() < 0.35:
             reqs.append(("asf op=walk data=%s" % hx(data), real_walk(a), dict(desc, op="walk")))
         loaded = list(a.tags)
@@ -892,6 +925,9 @@ def run(ctx):
             continue
         out = f.getvalue()
         impl = "ok v=%s" % hx(out) if k == "ok" else classify(r)
+        if k != "ok" and impl not in ("err mutagen", "err unicode"):
+            # UnicodeEncodeError: lone surrogates in caller-supplied names / text (the caller's error); everything else must be a MutagenError
+            ctx.violation("asf:%s:escape" % op, "%s raised %s, not a MutagenError" % (op, impl), desc)
         ctx.case(key=("asf", op, kind, i), nontrivial=(k == "ok" and out != data), modelled=True, sample=desc if i in (3, 40) else None)
         ctx.hist["asf:%s:%s" % (op, "ok" if k == "ok" else impl)] += 1
         if k == "ok" and op in ("save", "save2") and rng.random() < 0.5:
